@@ -254,7 +254,7 @@ def make_cases(chk):
     for kind, n in (('mixed', 4 << 20), ('urandom', (4 << 20) + 1)):
         cases.append({'mode': 'raw', 'kind': kind, 'size': n, 'rseed': rng.randrange(1 << 30), 'nomodel': not thorough})
     # leftovers of a run killed while compressing: complete original + half-written .gz; the next sink must not destroy the original
-    for n, N in (((200000, 5), (70000, 3), (1000, 2)) if thorough else ((200000, 5),)):
+    for n, N in (((200000, 5), (70000, 6), (1000, 8)) if thorough else ((200000, 5),)):
         cases.append({'mode': 'leftover', 'kind': 'mixed', 'size': n, 'N': N, 'rseed': rng.randrange(1 << 30)})
     # the .gz cannot be created (a directory has its name): the original must survive
     for kind, n in ([('urandom', 5000), ('crlf', 20000), ('mixed', 70000)] if thorough else [('urandom', 5000), ('crlf', 20000)]):
